@@ -450,9 +450,14 @@ def judge(built, status, force_merge, res):
 def judge_queued(prs, queued):
     non_hf = [i for i, d in enumerate(prs, 1) if not d.startswith('hotfix/')]
     got_non_hf = [p for p in queued if p in non_hf]
-    if got_non_hf != non_hf or sorted(queued) != list(range(1, len(prs) + 1)):
+    hf = [i for i, d in enumerate(prs, 1) if d.startswith('hotfix/')]
+    got_hf = [p for p in queued if p in hf]
+    # (the pull requests of one hotfix queue are listed in entry order too)
+    if got_non_hf != non_hf or got_hf != hf or \
+            sorted(queued) != list(range(1, len(prs) + 1)):
         return [{'clause': 'd', 'detail': 'queued_prs',
                  'expected': {'non_hotfix_in_entry_order': non_hf,
+                              'hotfix_in_entry_order': hf,
                               'all': list(range(1, len(prs) + 1))},
                  'got': list(queued)}]
     return []
